@@ -374,20 +374,55 @@ def entries(ctx):
     from quara.protocol.qtomography.standard.standard_qpt import StandardQpt
     from quara.protocol.qtomography.standard.standard_qmpt import StandardQmpt
     states = [qobj.rand_state(g, c) for _ in range(3)]
-    povms = [qobj.rand_povm(g, c, 2), qobj.rand_povm(g, c, 2)]
-    gs = gstate()
-    seeded = StandardQst(povms, seed_data=5)      # the constructor reseeds the global state (Experiment.reset_seed_data) ...
-    np.random.set_state((gs[0], np.frombuffer(gs[1], dtype=np.uint32), gs[2], gs[3], gs[4]))   # ... undo for the harness
-    tomos = {"StandardQst": (StandardQst(povms), qobj.rand_state(g, c)),
-             "StandardQst(seed_data=5)": (seeded, qobj.rand_state(g, c)),
-             "StandardPovmt": (StandardPovmt(states, num_outcomes=3), qobj.rand_povm(g, c, 3)),
-             "StandardQpt": (StandardQpt(states[:2], povms), qobj.rand_gate(g, c)),
-             "StandardQmpt": (StandardQmpt(states[:2], povms, num_outcomes=2), qobj.rand_mprocess(g, c, 2)[0])}
-    for name, (t, true) in tomos.items():
-        tp = [np.asarray(x) for x in t.generate_prob_dists_sequence(true)]
+    povms = [qobj.rand_povm(g, c, 2), qobj.rand_povm(g, c, 2), qobj.rand_povm(g, c, 2)]
+    trues = {"StandardQst": qobj.rand_state(g, c), "StandardPovmt": qobj.rand_povm(g, c, 3),
+             "StandardQpt": qobj.rand_gate(g, c), "StandardQmpt": qobj.rand_mprocess(g, c, 2)[0]}
+    # custom NON-identity schedule orders (the schedule index differs from the tester index it refers to)
+    custom = {"StandardQst": [[("state", 0), ("povm", k)] for k in (2, 0, 1)],
+              "StandardPovmt": [[("state", k), ("povm", 0)] for k in (2, 0, 1)],
+              "StandardQpt": [[("state", a), ("gate", 0), ("povm", b)] for a, b in ((1, 0), (0, 2), (1, 1), (0, 0))],
+              "StandardQmpt": [[("state", a), ("mprocess", 0), ("povm", b)] for a, b in ((1, 2), (0, 1), (1, 0), (0, 0))]}
+    build = {"StandardQst": lambda **kw: StandardQst(povms, **kw),
+             "StandardPovmt": lambda **kw: StandardPovmt(states, num_outcomes=3, **kw),
+             "StandardQpt": lambda **kw: StandardQpt(states[:2], povms, **kw),
+             "StandardQmpt": lambda **kw: StandardQmpt(states[:2], povms, num_outcomes=2, **kw)}
+
+    def born_ref(name, true, schedule):
+        """distribution of one schedule from the objects themselves (independent of the tomography object)"""
+        L = {"state": [true] if name == "StandardQst" else states, "povm": [true] if name == "StandardPovmt" else povms,
+             "gate": [true], "mprocess": [true]}
+        branches = [L["state"][schedule[0][1]].vec]
+        for k, i in schedule[1:-1]:
+            if k == "gate":
+                branches = [L["gate"][i].hs @ v for v in branches]
+            else:
+                branches = [hs @ v for v in branches for hs in L["mprocess"][i].hss]
+        pv = L["povm"][schedule[-1][1]]
+        p = np.array([np.vdot(e_, v).real for v in branches for e_ in pv.vecs])
+        return p
+
+    tomos = {}
+    for name in build:
+        tomos[name] = build[name]()
+        gs = gstate()
+        # built WITH seed_data: the constructor reseeds the global state (Experiment.reset_seed_data) ...
+        tomos[f"{name}(seed_data=5,custom-order)"] = build[name](seed_data=5, schedules=custom[name])
+        tomos[f"{name}(seed_data=9)"] = build[name](seed_data=9)
+        np.random.set_state((gs[0], np.frombuffer(gs[1], dtype=np.uint32), gs[2], gs[3], gs[4]))   # ... undo for the harness
+    for name, t in tomos.items():
+        cls = name.split("(")[0]
+        true = trues[cls]
+        sched = t._experiment.schedules
+        tp = [born_ref(cls, true, sc) for sc in sched]
+        own = [np.asarray(x) for x in t.generate_prob_dists_sequence(true)]
+        if len(own) != len(tp) or any(a.shape != b.shape or not np.allclose(a, b, atol=1e-9) for a, b in zip(own, tp)):
+            ctx.violate(f"C14/{name}/prob-dists-vs-born", "generate_prob_dists_sequence differs from the Born rule on the schedules", {"kind": "purity", "entry": name})
+            continue
+        tp = own       # bit-identical inputs for the reference multinomial draws; validated against Born just above
         S = len(tp)
-        E.append(Entry(f"{name}.generate_empi_dist", (lambda t, true, S: lambda s: t.generate_empi_dist(S - 1, true, 500, s))(t, true, S),
-                       (lambda tp, S: lambda gen: ref_empi_seq(tp[S - 1], [500], gen)[0])(tp, S)))
+        for si in range(S):
+            E.append(Entry(f"{name}.generate_empi_dist[schedule {si}]", (lambda t, true, si: lambda s: t.generate_empi_dist(si, true, 500, s))(t, true, si),
+                           (lambda tp, si: lambda gen: ref_empi_seq(tp[si], [500], gen)[0])(tp, si)))
         E.append(Entry(f"{name}.generate_empi_dists", (lambda t, true: lambda s: t.generate_empi_dists(true, 300, s))(t, true),
                        (lambda tp: lambda gen: [ref_empi_seq(p, [300], gen)[0] for p in tp])(tp)))
 
